@@ -157,6 +157,9 @@ func (propC02) Draw(rt *rapid.T, w *WorldDesc, mode string) *Plan {
 			want = proto.Clone(bm)
 			mergeFrom(want, urlOnly(), rpc)
 		}
+		if len(raw.Body) > 0 && !raw.NoBody && rapid.IntRange(0, 4).Draw(rt, l+".chunked") == 0 {
+			raw.Chunked = true // no Content-Length: the server learns the body's length only by reading it
+		}
 		op.Notes = append(op.Notes, "body="+bodyKind)
 		// URL perturbation
 		switch rapid.IntRange(0, 5).Draw(rt, l+".urlcase") {
